@@ -37,7 +37,36 @@ pub fn vname(t: &DataType) -> &'static str {
     variant_name(t)
 }
 
+/// The same bounds read in the neighbouring variant of the family (int[a b] / float[a b],
+/// date[a b] / datetime[a 00:00, b 00:00], bool / int{0,1}): the natural trap for cross-variant inclusion
+fn twin(a: &DataType) -> Option<DataType> {
+    use qrlew::data_type as dt;
+    Some(match a {
+        DataType::Date(d) => {
+            let iv: Vec<[chrono::NaiveDateTime; 2]> = d.iter().map(|[x, y]| [x.and_hms_opt(0, 0, 0).unwrap(), y.and_hms_opt(0, 0, 0).unwrap()]).collect();
+            DataType::DateTime(dt::DateTime::from_intervals(iv))
+        }
+        DataType::DateTime(d) => {
+            let iv: Vec<[chrono::NaiveDate; 2]> = d.iter().map(|[x, y]| [x.date(), y.date()]).collect();
+            DataType::Date(dt::Date::from_intervals(iv))
+        }
+        DataType::Integer(i) if i.iter().all(|[x, y]| x.unsigned_abs() < (1 << 52) && y.unsigned_abs() < (1 << 52)) => {
+            DataType::Float(dt::Float::from_intervals(i.iter().map(|[x, y]| [*x as f64, *y as f64]).collect::<Vec<_>>()))
+        }
+        DataType::Float(f) if f.iter().all(|[x, y]| x.is_finite() && y.is_finite() && x.abs() < 4e15 && y.abs() < 4e15) => {
+            DataType::Integer(dt::Integer::from_intervals(f.iter().map(|[x, y]| [x.ceil() as i64, y.floor() as i64]).filter(|[x, y]| x <= y).collect::<Vec<_>>()))
+        }
+        DataType::Boolean(_) => DataType::integer_values([0, 1]),
+        _ => return None,
+    })
+}
+
 fn related(r: &mut Rng, a: &DataType) -> DataType {
+    if r.chance(1, 8) {
+        if let Some(t) = twin(a) {
+            return t;
+        }
+    }
     match r.below(8) {
         0 | 1 | 2 => {
             let c = gen_datatype(r, 2);
